@@ -311,6 +311,24 @@ def check_selection(chk, prog, env, model, tabs):
                                        'JWT_CRYPTO default/fallback is the first provider', n, bad, floor=30)
 
 
+def check_gate_provider_independence(chk, prog, env):
+    """keys loaded under one provider stay usable under the other: in the generic layer (jwt_sign / jwt_verify_sig up to the provider
+    entry) no branch depends on the provider tag of the key item or on which provider is current"""
+    from props import tables as T
+    T.GATE_PROVIDER_BRANCHES.clear()
+    n = 0
+    for entry in ('jwt_sign', 'jwt_verify_sig'):
+        n += len(T.gate_table(prog, env, entry))
+    bad = 0
+    for entry, (f, l) in sorted(T.GATE_PROVIDER_BRANCHES, key=repr):
+        bad += 1
+        chk.add(Finding('C12.provider-independent-gate', f or 'libjwt/jwt.c', entry, 'branch-on-provider',
+                        'a branch at %s:%s on the way to the provider entry depends on a provider tag (of the key item or of the current '
+                        'provider): a key loaded under one provider is treated differently under the other' % (f, l), line=l))
+    chk.rule('C12.provider-independent-gate', 'jwt_sign / jwt_verify_sig: no branch before the provider entry depends on item->provider or '
+                                              'jwt_ops->provider', n, bad, floor=3000)
+
+
 def run(chk, prog, tier):
     env = Env(prog)
     model = build_model()
@@ -319,6 +337,7 @@ def run(chk, prog, tier):
     chk.guard('verdict gate', c01.check_gate, chk, prog, env, model)
     check_verifier_support(chk, prog, 'C12.verifier-support')
     chk.guard('provider selection', check_selection, chk, prog, env, model, tabs)
+    chk.guard('provider-independent gate', check_gate_provider_independence, chk, prog, env)
     chk.assumptions += ['byte-identical tokens and cross-acceptance of signatures are runtime crypto and NOT decided; equal verdicts on mutated '
                         'tokens only in as far as the verdict gate implies', 'GnuTLS refusing ES256K is documented behaviour, not a disagreement']
     return chk.finish(
